@@ -71,6 +71,9 @@ type Pattern struct {
 	Groups []Group
 	// Subject patterns (used with =~) are matched against strings, not lines.
 	Subject bool
+	// InSubst: the pattern is the first argument of subst(): its capture groups
+	// define no symbols (the checker parses it with noRegexSymbols)
+	InSubst bool
 	Anchor  string // "", "^", "$"
 }
 
